@@ -323,7 +323,9 @@ Definition parse_title (st : nstate) : nr (option str * nstate) :=
 (* _parse_link_statement -> (links['taxa'], links['characters'])                               *)
 Definition link_item (st : nstate) : nr (option str * option str * nstate) :=
   (* token = next_token(); if token != "=": raise; token = next_token(); value = token; token = next_token() *)
-  let k := if fix_link then FNextToken else uniform_prim L_link in
+  (* current form: the fetch primitive of the statement's first fetch, from the generated record
+     (all its fetches are of that kind in the unrepaired source); repaired form: next_token *)
+  let k := if fix_link then FNextToken else nth_prim L_link 0 in
   dn p <- fetch k None st ;;
   if negb (tok_is (fst p) "=") then RErr ParseErr
   else dn q <- fetch k None (snd p) ;;
